@@ -284,6 +284,107 @@ func runC18(c *Ctx) {
 			}
 		})
 	}
+	ruleSizeGuard(c, "mapset")
+	// IsEmpty is Len() == 0 (a non-nil set without members is empty); HasAny answers true only after a member was found
+	c.rule("R-PREDICATE-WITNESS", 2, "IsEmpty tests the length; HasAny's only non-false answer is a constant true after a successful membership test")
+	if ie := P.Func("mapset", "Set", "IsEmpty"); ie != nil {
+		okE := false
+		allInstrs(ie, func(in ssa.Instruction) {
+			if ret, ok := in.(*ssa.Return); ok && len(ret.Results) == 1 {
+				if bo, ok := ret.Results[0].(*ssa.BinOp); ok && isConstInt(bo.Y, 0) && (bo.Op == token.EQL || bo.Op == token.LEQ) {
+					if ln, ok := isBuiltinCall(bo.X, "len"); ok && ln.Call.Args[0] == ssa.Value(ie.Params[0]) {
+						okE = true
+					}
+					if call, ok := bo.X.(*ssa.Call); ok {
+						if cal := staticCallee(&call.Call); cal != nil && cal.Name() == "Len" {
+							okE = true
+						}
+					}
+				}
+			}
+		})
+		c.sawFn(fnName(ie))
+		c.judge(okE, "R-PREDICATE-WITNESS", "mapset.Set.IsEmpty:tests the length", ie.Pos(), "len(s) == 0", "IsEmpty does not test the number of members (a nil test, say): a set that was emptied, or made by New(), has no members and is not nil")
+	}
+	if ha := P.Func("mapset", "Set", "HasAny"); ha != nil {
+		var probs []string
+		allInstrs(ha, func(in ssa.Instruction) {
+			ret, ok := in.(*ssa.Return)
+			if !ok || len(ret.Results) != 1 {
+				return
+			}
+			var chk func(v ssa.Value, at *ssa.BasicBlock, seen map[ssa.Value]bool)
+			chk = func(v ssa.Value, at *ssa.BasicBlock, seen map[ssa.Value]bool) {
+				if seen[v] {
+					return
+				}
+				seen[v] = true
+				switch x := v.(type) {
+				case *ssa.Phi:
+					for i, e := range x.Edges {
+						chk(e, x.Block().Preds[i], seen)
+					}
+				case *ssa.Const:
+					if x.Value != nil && x.Value.String() == "true" {
+						found := false
+						for fc, truth := range callFactsAt(at) {
+							if cal := staticCallee(&fc.Call); cal != nil && cal.Name() == "Has" && truth {
+								found = true
+							}
+						}
+						for ex, truth := range extractFactsAt(at) {
+							if _, isLookup := ex.Tuple.(*ssa.Lookup); isLookup && ex.Index == 1 && truth {
+								found = true
+							}
+						}
+						if !found {
+							probs = append(probs, "a constant true without a successful membership test at "+P.pos(ret.Pos()))
+						}
+					}
+				default:
+					// an answer computed from sizes alone (lengths, constants) has consulted no member; anything
+					// else (a helper's result, a scan position left by a loop that tests membership) is not judged
+					sizesOnly := true
+					var leaves func(w ssa.Value, d int)
+					leaves = func(w ssa.Value, d int) {
+						if d > 6 {
+							sizesOnly = false
+							return
+						}
+						switch y := w.(type) {
+						case *ssa.Const:
+						case *ssa.BinOp:
+							leaves(y.X, d+1)
+							leaves(y.Y, d+1)
+						case *ssa.UnOp:
+							if y.Op == token.NOT || y.Op == token.SUB {
+								leaves(y.X, d+1)
+							} else {
+								sizesOnly = false
+							}
+						case *ssa.Call:
+							if ln, ok := isBuiltinCall(y, "len"); ok {
+								if _, isP := ln.Call.Args[0].(*ssa.Parameter); isP {
+									return
+								}
+							}
+							sizesOnly = false
+						default:
+							sizesOnly = false
+						}
+					}
+					leaves(v, 0)
+					if sizesOnly {
+						probs = append(probs, "an answer computed from sizes alone, "+ksym(v)+" at "+P.pos(ret.Pos()))
+					}
+				}
+			}
+			chk(ret.Results[0], ret.Block(), map[ssa.Value]bool{})
+		})
+		sort.Strings(probs)
+		c.sawFn(fnName(ha))
+		c.judge(len(probs) == 0, "R-PREDICATE-WITNESS", "mapset.Set.HasAny:true needs a witness", ha.Pos(), "true only after Has succeeded; otherwise false", fmt.Sprintf("HasAny can answer with %v: 'some listed item is a member' has no witness there (an empty list of items has no member in any set)", probs))
+	}
 	c.rule("R-CARD-SHORTCUT", 1, "a branch on len(a) vs len(b) that returns a constant answer compares two sets, never a list (repeats) with a set")
 	c.rule("R-NIL-LAZY", 2, "every map update of *s (directly or via a receiver-updating helper) is preceded on all paths by *s != nil or a store of a fresh map")
 	setT := P.Named("mapset", "Set")
